@@ -957,6 +957,11 @@ func unsafeReason(args []string) string {
 			return "small-expiry"
 		}
 	case "client":
+		if exclClientNaN && len(in) == 3 && strings.EqualFold(in[1], "setname") {
+			if f, err := strconv.ParseFloat(in[2], 64); err == nil && (math.IsNaN(f) || math.IsInf(f, 0)) {
+				return idClientListNaN
+			}
+		}
 		if len(in) >= 2 && strings.EqualFold(in[1], "kill") {
 			for _, a := range in[2:] {
 				switch strings.ToLower(a) {
@@ -1020,6 +1025,12 @@ var exclNearbyBuffer = true
 // exclNonFinite: non-finite coordinates lead to JSON replies with bare NaN /
 // Inf (finding json-nonfinite-coordinates); set while its probe reproduces.
 var exclNonFinite = false
+
+// exclClientNaN: a client named nan / inf breaks CLIENT LIST in JSON mode
+// (finding json-client-list-nonfinite-name); set while its probe reproduces.
+var exclClientNaN = false
+
+const idClientListNaN = "json-client-list-nonfinite-name"
 
 // detaches: the command may take the connection out of request/reply mode
 // (live fence, SUBSCRIBE, MONITOR, AOF) or end it (QUIT).
